@@ -42,9 +42,8 @@ class C12(Check):
         "lex and parse cleanly are excluded by a parse-only pre-check and counted (DESIGN: 'G-mut that still parses'; "
         "next to an unparsable section the API can glue anything, and the CLI refuses to fix such files). Observation: "
         "Linter.lint_string(fix=True) + LintedFile.fix_string(), then the fixed text is lexed again with the dialect "
-        "lexer. Oracle: non-meta non-empty leaves of the fixed tree == relexed tokens, pairwise (raw text, coarse kind; "
-        "runs of adjacent whitespace leaves count as one token) "
-        "(whitespace/newline/comment/code); failures classified merge/split/shift/retype/text. Cases where sqlfluff "
+        "lexer. Oracle: non-meta non-empty leaves of the fixed tree == relexed tokens, pairwise (raw text, coarse kind "
+        "whitespace/newline/comment/code; a run of adjacent whitespace leaves counts as one token); failures classified merge/split/shift/retype/text. Cases where sqlfluff "
         "raises or a rule reports 'Unexpected exception' are excluded and counted (C04/C05). Non-trivial: the fix "
         "changed the file and some pair of code tokens that touched is now separated or vice versa."
     )
@@ -75,7 +74,8 @@ class C12(Check):
         return fixlib.pinned_slice(tier, ["format", "all", "layout", "core"], 8, 30)
 
     def strategy(self, tier):
-        return fixlib.fix_case(tier=tier)
+        # quick: mutation operators that usually keep the fixture parsable (fewer exclusions); thorough: all operators
+        return fixlib.fix_case(tier=tier, kinds=[7, 7, 8, 8, 3, 2, 6, 1, 0] if tier == "quick" else None)
 
     def examples(self, tier):
         return 70 if tier == "quick" else 1500
